@@ -246,21 +246,9 @@ def kf_opzones(v, f):
     return bool(v.detail.get("options", {}).get("DO_DIRECT_OPERATION_TARGETING")) and v.clause in ("C14.record_names_unique", "C14.one_DI_record_per_zone")
 
 
-def check(prop, tier, run: Run, replay_case=None):
-    pre = prop + "."
-    if replay_case is not None:
-        _init()
-        ev = drive((0, replay_case["case"]))
-        verdicts, _ = judge([ev])
-        fails = set(verdicts.get(0, [])) | {c for r in ev["runs"] for c in r["py"]}
-        for c in sorted(fails):
-            if c.startswith(pre):
-                run.violation(c, replay_case["case"], dict(runs=[dict(g=r["g"], err=r["err"], recs=r["recs"]) for r in ev["runs"]]))
-        run.cov["evaluations"] = 1
-        return
-    run.assumptions += ["site problems on the lattice under the native embedding (1 unit = 0.01 K, so the code's absolute 1 K level-matching window is 100 units)",
-                        "reported numbers transported to TLC in fixed point (1e-4 lattice units), compared within 12 units (< 1e-6 of the total duty plus rounding)"]
-    names = ["quick2", "quick3", "near"] if tier == "quick" else ["quick2", "near", "deep3"]
+def site_leg(run, tier, names, accept):
+    """SiteGen problems -> real service in every equivalent description -> one trace event per problem -> TraceSite verdicts.
+    accept(clause) returns the clause name to report under the calling property, or None."""
     nontriv = set()
     for name in names:
         res = gen_cases(name)
@@ -285,12 +273,31 @@ def check(prop, tier, run: Run, replay_case=None):
             fails = set(allv.get(ev["id"], [])) | {c for r in ev["runs"] for c in r["py"]}
             case = cases[ev["id"]]
             for c in sorted(fails):
-                if c.startswith(pre) or (prop == "C14" and c.startswith("C13.one_graph")):
-                    run.violation(c, case, dict(runs=[dict(g=r["g"], err=r["err"], recs=r["recs"]) for r in ev["runs"]]))
+                if accept(c):
+                    run.violation(accept(c), case, dict(runs=[dict(g=r["g"], err=r["err"], recs=r["recs"]) for r in ev["runs"]]))
             if len(set(ev["z"])) > 1 or ev["lo"] > 0:
                 nontriv.add(json.dumps([ev["S"], ev["z"], ev["lo"]]))
         run.cov["samples"] += [{"config": name, "streams": c["S"], "zones": c["z"], "ladder": c["ladder"],
                                 "descriptions": ["base"] + [v["g"] for v in c["variants"]]} for c in cases[len(cases) // 2:][:2]]
+    return nontriv
+
+
+def check(prop, tier, run: Run, replay_case=None):
+    pre = prop + "."
+    if replay_case is not None:
+        _init()
+        ev = drive((0, replay_case["case"]))
+        verdicts, _ = judge([ev])
+        fails = set(verdicts.get(0, [])) | {c for r in ev["runs"] for c in r["py"]}
+        for c in sorted(fails):
+            if c.startswith(pre):
+                run.violation(c, replay_case["case"], dict(runs=[dict(g=r["g"], err=r["err"], recs=r["recs"]) for r in ev["runs"]]))
+        run.cov["evaluations"] = 1
+        return
+    run.assumptions += ["site problems on the lattice under the native embedding (1 unit = 0.01 K, so the code's absolute 1 K level-matching window is 100 units)",
+                        "reported numbers transported to TLC in fixed point (1e-4 lattice units), compared within 12 units (< 1e-6 of the total duty plus rounding)"]
+    names = ["quick2", "quick3", "near"] if tier == "quick" else ["quick2", "near", "deep3"]
+    nontriv = site_leg(run, tier, names, lambda c: c if (c.startswith(pre) or (prop == "C14" and c.startswith("C13.one_graph"))) else None)
     if prop in ("C02", "C09", "C14"):
         from . import corpus
         corpus.leg_t(run, prop, tier)
